@@ -361,12 +361,13 @@ func main() {
 	verifyCases(w, g, f, total*18/100)
 	handlerCases(w, g, total*20/100, !cfg.Quick)
 	exitCases(w, g, total*4/100)
+	codeCases(w, g, total*3/100)
 	routeCases(w, g, total*26/100)
 	clientCases(w, g, total*15/100)
 	userCodeCases(w, g, max(8, total/100))
 
 	err = w.Close(emit.Meta{Property: "C09", Tier: cfg.Tier, Seed: cfg.Seed,
-		Rule:  "seeded structured fuzz, no coverage guidance. decode: JSON ASTs (well-typed members + wrong-typed / null / huge / nested / duplicate members, invalid UTF-8) serialised by the harness and fed to json.Unmarshal of each library type; verify: JWTs (provider-signed, foreign, none, garbage) around those payloads plus null / scalar / array / truncated payloads, wrong segment counts, bad base64, on the six verifier entry points; handler: request shapes (entry x endpoint/grant x form ok x Basic header kind x main parameter x client_id x first storage call fails) on Provider router, LegacyServer router and directly called grant handlers; exit: valid authenticated revocation / introspection / userinfo requests whose k-th storage call fails (error or deadline); route: flow-first requests (live code / tokens / device codes of a real flow) with mutations on every route x method x header x body of both routers, one third of them with an injected storage fault (k-th call or every call of one method, error or deadline); client: provider answers (status x body AST / truncated) through a stub RoundTripper into the client helpers. Non-trivial = model path class != 0 (not: null document, wrong segment count, missing grant_type); distinct = distinct input term.",
+		Rule:  "seeded structured fuzz, no coverage guidance. decode: JSON ASTs (well-typed members + wrong-typed / null / huge / nested / duplicate members, invalid UTF-8) serialised by the harness and fed to json.Unmarshal of each library type; verify: JWTs (provider-signed, foreign, none, garbage) around those payloads plus null / scalar / array / truncated payloads, wrong segment counts, bad base64, on the six verifier entry points; handler: request shapes (entry x endpoint/grant x form ok x Basic header kind x main parameter x client_id x first storage call fails) on Provider router, LegacyServer router and directly called grant handlers; code: redemption of a live code (public / confidential client x challenge stored or not x verifier none / right / wrong) on both routers; exit: valid authenticated revocation / introspection / userinfo requests whose k-th storage call fails (error or deadline); route: flow-first requests (a fresh code flow per case with random optional parts - challenge none / S256 / plain, nonce, state, scopes, max_age, zero auth time, empty amr / audience, not logged in -; live tokens / device codes approved, denied, pending) with mutations on every route x method x header x body of both routers, one third of them with an injected storage fault (k-th call or every call of one method, error or deadline); client: provider answers (status x body AST / truncated) through a stub RoundTripper into the client helpers. Non-trivial = model path class != 0 (not: null document, wrong segment count, missing grant_type); distinct = distinct input term.",
 		Extra: map[string]any{"router_fixture": "opfix.NewStd, all capabilities"},
 	})
 	if err != nil {
